@@ -1,36 +1,66 @@
 ------------------------ MODULE WbemServerCentralMC ------------------------
 (***************************************************************************)
 (* X06 - TLC enumerates small profile / association graphs with a builder  *)
-(* machine (every action adds one association instance or changes how the  *)
-(* server answers for one profile, so every reachable state is a complete  *)
-(* world) and checks in EVERY world, for EVERY query of the query universe,*)
+(* machine (every action adds one association instance, so every reachable *)
+(* state is a complete world; how the server answers the traversal of      *)
+(* CIM_ElementConformsToProfile per profile is chosen in the initial       *)
+(* state) and checks in EVERY world, for EVERY query of the query universe,*)
 (* that the code-shaped get_central_instances (WbemServerCentralImplOps)   *)
 (* yields an outcome the declarative requirement (WbemServerCentral)       *)
-(* admits.  Queries are about profile p1 only: the set of worlds is closed *)
-(* under renaming of profiles.                                             *)
+(* admits.  Queries are about profile p1 only: the sets of worlds of the   *)
+(* "wide" configurations are closed under renaming of profiles.            *)
 (*                                                                         *)
 (* The same machine emits worlds for the binding (tlc -simulate; the last  *)
 (* state of a behaviour is a world) and the query universe (PrintT).       *)
 (***************************************************************************)
 EXTENDS WbemServerCentralImplOps
 
-CONSTANTS ResU,        \* resources that may take part in associations
-          ProfU,       \* profiles that may take part in associations
-          MaxEdges,    \* max number of association instances
-          ModesU,      \* answers of the server for the ECTP traversal
-          QuerySet     \* "full" | "core"
+CONSTANTS EctpU, RpU, A1U, A2U,   \* association instances that may exist
+          MaxEdges,               \* max number of association instances
+          Modes1, ModesO,         \* server answers: for p1 / other profiles
+          QuerySet                \* "full" | "core" | "scoping"
 
 VARIABLE W
+
+(*------------------ universes used by the configurations -----------------*)
+R4 == {"r1", "r2", "r3", "r4"}
+R5 == {"r1", "r2", "r3", "r4", "r5"}
+Pairs(S) == {e \in S \X S : e[1] # e[2]}
+Ranked(r) == CASE r = "r1" -> 1 [] r = "r2" -> 2 [] r = "r3" -> 3
+               [] r = "r4" -> 4 [] r = "r5" -> 5 [] OTHER -> 6
+Oriented(S) == {e \in S \X S : Ranked(e[1]) < Ranked(e[2])}
+EctpWide == Profiles \X R4
+EctpWide5 == Profiles \X R5
+RpWide == Pairs(Profiles)
+AWide == Pairs(R4)
+AWide5 == Pairs(R5)
+(* "deep": p1 is a component profile of p2; one orientation per pair       *)
+EctpDeep == {"p2"} \X R4
+RpDeep == {<<"p1", "p2">>}
+ADeep == Oriented(R4)
+ADeepBoth == Pairs(R4)
+AllModes == {"impl", "unsup", "err"}
+OnlyUnsup == {"unsup"}
+OnlyImpl == {"impl"}
 
 SpNone == [given |-> FALSE, path |-> <<>>]
 Sp(path) == [given |-> TRUE, path |-> path]
 SpU == {SpNone, Sp(<<"A1">>), Sp(<<"A1", "M", "A2">>), Sp(<<>>),
         Sp(<<"A1", "A2">>)}
-SpCore == {SpNone, Sp(<<"A1">>), Sp(<<"A1", "M", "A2">>)}
 Qy(cc, sc, sp, dir, gci, gl, ptype) ==
   [p |-> "p1", cc |-> cc, sc |-> sc, sp |-> sp, dir |-> dir, gci |-> gci,
    gl |-> gl, ptype |-> ptype]
 
+(* every combination of the arguments the methodologies look at *)
+QueriesScoping ==
+  {Qy(cc, "S", sp, dir, "off", <<>>, "path") :
+     cc \in {"C", "C2", "M"}, sp \in SpU \ {SpNone}, dir \in {"dmtf", "snia"}}
+QueriesCore ==
+  QueriesScoping
+  \cup {Qy("", "S", Sp(<<"A1">>), dir, "off", <<>>, "path") : dir \in {"dmtf", "snia"}}
+  \cup {Qy("C", "", Sp(<<"A1">>), dir, "off", <<>>, "path") : dir \in {"dmtf", "snia"}}
+  \cup {Qy("C", "S", SpNone, dir, "off", <<>>, "path") : dir \in {"dmtf", "snia"}}
+  \cup {Qy("", "", SpNone, dir, "off", <<>>, "path") : dir \in {"dmtf", "snia"}}
 QueriesFull ==
   {Qy(cc, sc, sp, dir, "off", <<>>, "path") :
      cc \in {"", "C", "C2", "M"}, sc \in {"", "S"}, sp \in SpU,
@@ -42,34 +72,23 @@ QueriesFull ==
   \cup {Qy("C", "S", Sp(<<"A1">>), dir, gci, <<>>, ptype) :
      dir \in {"dmtf", "other"}, gci \in {"off", "ok"},
      ptype \in {"path", "other"}}
-QueriesCore ==
-  {Qy(cc, sc, sp, dir, "off", <<>>, "path") :
-     cc \in {"", "C"}, sc \in {"", "S"}, sp \in SpCore,
-     dir \in {"dmtf", "snia"}}
-Queries == IF QuerySet = "full" THEN QueriesFull ELSE QueriesCore
+Queries == CASE QuerySet = "full" -> QueriesFull
+             [] QuerySet = "core" -> QueriesCore
+             [] OTHER -> QueriesScoping
 
-ASSUME PrintT(<<"QUERIES", Queries>>)
+ASSUME PrintT(<<"QUERIES", QueriesFull>>)
 
-Init == W = EmptyWorld
+CmU == {cm \in [Profiles -> AllModes] :
+          cm["p1"] \in Modes1 /\ \A p \in Profiles \ {"p1"} : cm[p] \in ModesO}
+Init == \E cm \in CmU : W = [EmptyWorld EXCEPT !.cm = cm]
 Size == Cardinality(W.ectp) + Cardinality(W.rp) + Cardinality(W.a1)
         + Cardinality(W.a2)
-AddEdge ==
+Next ==
   /\ Size < MaxEdges
-  /\ \/ \E p \in ProfU, r \in ResU :
-          /\ <<p, r>> \notin W.ectp
-          /\ W' = [W EXCEPT !.ectp = @ \cup {<<p, r>>}]
-     \/ \E p \in ProfU, q \in ProfU :
-          /\ p # q /\ <<p, q>> \notin W.rp
-          /\ W' = [W EXCEPT !.rp = @ \cup {<<p, q>>}]
-     \/ \E x \in ResU, y \in ResU :
-          /\ x # y /\ <<x, y>> \notin W.a1
-          /\ W' = [W EXCEPT !.a1 = @ \cup {<<x, y>>}]
-     \/ \E x \in ResU, y \in ResU :
-          /\ x # y /\ <<x, y>> \notin W.a2
-          /\ W' = [W EXCEPT !.a2 = @ \cup {<<x, y>>}]
-SetMode == \E p \in ProfU, m \in ModesU :
-             /\ W.cm[p] # m /\ W' = [W EXCEPT !.cm[p] = m]
-Next == AddEdge \/ SetMode
+  /\ \/ \E e \in EctpU \ W.ectp : W' = [W EXCEPT !.ectp = @ \cup {e}]
+     \/ \E e \in RpU \ W.rp : W' = [W EXCEPT !.rp = @ \cup {e}]
+     \/ \E e \in A1U \ W.a1 : W' = [W EXCEPT !.a1 = @ \cup {e}]
+     \/ \E e \in A2U \ W.a2 : W' = [W EXCEPT !.a2 = @ \cup {e}]
 Spec == Init /\ [][Next]_W
 
 ImplRefinesReq == \A Q \in Queries : ImplOutcome(W, Q) \in Adm(W, Q)
